@@ -3,6 +3,9 @@
 package script
 
 import (
+	"encoding/binary"
+	"fmt"
+	"io"
 	"sync"
 	"time"
 
@@ -10,6 +13,7 @@ import (
 	"github.com/ovh/kmip-go/ttlv"
 
 	"verif/harness/memnet"
+	"verif/harness/wire"
 )
 
 // Received is one request as the scripted server saw it.
@@ -17,6 +21,61 @@ type Received struct {
 	Conn int
 	Seq  int
 	Msg  *kmip.RequestMessage
+	Raw  []byte
+}
+
+// ReadFrame reads one TTLV item (8-byte header + padded value) from r.
+func ReadFrame(r io.Reader) ([]byte, error) {
+	hdr := make([]byte, 8)
+	if _, err := io.ReadFull(r, hdr); err != nil {
+		return nil, err
+	}
+	l := int(binary.BigEndian.Uint32(hdr[4:]))
+	l = (l + 7) &^ 7
+	if l > 16<<20 {
+		return nil, fmt.Errorf("frame of %d bytes", l)
+	}
+	buf := make([]byte, 8+l)
+	copy(buf, hdr)
+	if _, err := io.ReadFull(r, buf[8:]); err != nil {
+		return nil, err
+	}
+	return buf, nil
+}
+
+func skeleton(frame []byte) kmip.RequestMessage {
+	var m kmip.RequestMessage
+	t, err := wire.Parse(frame)
+	if err != nil {
+		return m
+	}
+	m.Header.ProtocolVersion = kmip.V1_4
+	for _, c := range t.Children {
+		switch c.Tag {
+		case kmip.TagRequestHeader:
+			for _, h := range c.Children {
+				if h.Tag == kmip.TagProtocolVersion && len(h.Children) == 2 {
+					m.Header.ProtocolVersion = kmip.ProtocolVersion{ProtocolVersionMajor: int32(h.Children[0].Int), ProtocolVersionMinor: int32(h.Children[1].Int)}
+				}
+				if h.Tag == kmip.TagBatchCount {
+					m.Header.BatchCount = int32(h.Int)
+				}
+			}
+		case kmip.TagBatchItem:
+			var bi kmip.RequestBatchItem
+			for _, x := range c.Children {
+				switch x.Tag {
+				case kmip.TagOperation:
+					bi.Operation = kmip.Operation(x.Int)
+				case kmip.TagUniqueBatchItemID:
+					bi.UniqueBatchItemID = x.Bytes
+				}
+			}
+			bi.RequestPayload = kmip.NewUnknownPayload(bi.Operation)
+			m.BatchItem = append(m.BatchItem, bi)
+		}
+	}
+	return m
 }
 
 // Server accepts connections on an in-memory listener and answers every request message with
@@ -65,11 +124,17 @@ func (s *Server) serve(idx int, conn *memnet.Conn) {
 	defer s.wg.Done()
 	st := ttlv.NewStream(conn, 0)
 	for seq := 0; ; seq++ {
-		var req kmip.RequestMessage
-		if err := st.Recv(&req); err != nil {
+		frame, err := ReadFrame(conn)
+		if err != nil {
 			return
 		}
-		rx := Received{Conn: idx, Seq: seq, Msg: &req}
+		var req kmip.RequestMessage
+		if err := ttlv.UnmarshalTTLV(frame, &req); err != nil {
+			// a request the library itself cannot decode (e.g. an Import without object): keep the
+			// skeleton (version, operations, ids) so that the script can still answer it
+			req = skeleton(frame)
+		}
+		rx := Received{Conn: idx, Seq: seq, Msg: &req, Raw: frame}
 		s.mu.Lock()
 		s.Log = append(s.Log, rx)
 		s.mu.Unlock()
